@@ -302,3 +302,33 @@ func VerifIndexLazyConcurrent() {
 		verifrt.Assert(got[i].owner == want[i].owner, "C17-lazy-index-same-running-value")
 	}
 }
+
+// VerifValidateConcurrentWide: SIZE-DRIVEN variant of VerifValidateConcurrent. One list node with
+// Param("entries") entries, every entry invalid in its own way (an interface name that does
+// not match the pattern of the schema: one error per entry, naming the entry), plus the
+// out-of-range leaf of the base scenario. The concurrent verdict must equal the sequential one
+// entry for entry. The sizes come from the integer constants that meet a length in the code
+// under test (fan-out thresholds of the validator), see interp.CodeSizeConstants.
+func VerifValidateConcurrentWide() {
+	n := verifrt.Param("entries", 3)
+	mk := func() []*sdcpb.Update {
+		u := []*sdcpb.Update{{Path: vPath(vPE("rangetestunsigned")), Value: vUintTV(1000)}}
+		for k := 0; k < n; k++ {
+			u = append(u, &sdcpb.Update{Path: vPath(vPE("interface", "name", "x"+strconv.Itoa(k)), vPE("description")), Value: vStrTV("d")})
+		}
+		return u
+	}
+	seqErrs, seqWarns := v17Verdict(v17Tree(vNewEnv(), mk()), false)
+	verifrt.Reach("sequential-done")
+	verifrt.Assert(len(seqErrs) >= n+1, "C17-scenario-has-one-error-per-entry")
+	conErrs, conWarns := v17Verdict(v17Tree(vNewEnv(), mk()), true)
+	verifrt.Reach("concurrent-done")
+	verifrt.Assert(verifrt.Goroutines() == 0, "C17-validators-all-finished")
+	verifrt.Assert(len(conErrs) == len(seqErrs), "C17-same-number-of-errors")
+	verifrt.Assert(len(conWarns) == len(seqWarns), "C17-same-number-of-warnings")
+	if len(conErrs) == len(seqErrs) {
+		for i := range conErrs {
+			verifrt.Assert(conErrs[i] == seqErrs[i], "C17-same-errors")
+		}
+	}
+}
